@@ -434,6 +434,7 @@ func runPhase(prop *Property, ph *Phase, tier string, seed int64, n int, bin, re
 				} else if kind == "hang" {
 					agg.Hangs++
 				}
+				tooManyHangs := agg.Hangs >= 4
 				if idx < 0 {
 					harnessFailure = fmt.Sprintf("worker for phase %s died outside any case: %s", ph.Name, truncate(detail, 800))
 					mu.Unlock()
@@ -457,6 +458,13 @@ func runPhase(prop *Property, ph *Phase, tier string, seed int64, n int, bin, re
 				agg.Classes["worker-"+kind]++
 				mu.Unlock()
 				if job.only >= 0 {
+					return
+				}
+				if tooManyHangs {
+					// every hang costs a full watchdog period: after a few of them the phase is cut short
+					mu.Lock()
+					agg.Obs["phase_cut_short_after_repeated_hangs"] = 1
+					mu.Unlock()
 					return
 				}
 				if attempt >= 40 {
